@@ -114,7 +114,8 @@ impl FunctionExpression for DecodeCharsetFn {
         let value = self.value.resolve(ctx)?.try_bytes()?;
         let to_charset = self.to_charset.resolve(ctx)?.try_bytes()?;
 
-        encode_charset(from_utf8(value.as_bytes()).unwrap(), to_charset.as_bytes())
+        // Like the other string functions, invalid UTF-8 is replaced instead of rejected.
+        encode_charset(&String::from_utf8_lossy(&value), to_charset.as_bytes())
     }
 
     fn type_def(&self, _state: &TypeState) -> TypeDef {
